@@ -230,6 +230,24 @@ pub fn all_lenses() -> Vec<Lens> {
             n_thorough: 7,
         },
         Lens {
+            // components that cross the 23-byte inline capacity of the small string type: a 20-byte
+            // filler, then up to n tokens
+            name: "A10-length-threshold",
+            prefixes: vec![
+                "pkg:pypi/aaaaaaaaaaaaaaaaaaaa",
+                "pkg:nuget/Bbbbbbbbbbbbbbbbbbbb",
+                "pkg:t/cccccccccccccccccccc",
+                "pkg:t/n@11111111111111111111",
+                "pkg:t/n?k=vvvvvvvvvvvvvvvvvvvv",
+                "pkg:t/n?checksum=a:00000000000000000000",
+                "pkg:t/n#ssssssssssssssssssss",
+            ],
+            alphabet: vec!["a", "A", "-", "_", ".", "É", "/", "0"],
+            suffixes: vec![""],
+            n_quick: 5,
+            n_thorough: 7,
+        },
+        Lens {
             name: "A7-typed-names",
             prefixes: vec!["pkg:cargo/", "pkg:gem/", "pkg:golang/", "pkg:maven/", "pkg:npm/", "pkg:nuget/", "pkg:PyPI/", "pkg:pypi/", "pkg:generic/"],
             alphabet: vec!["a", "A", "-", "_", ".", "/", "@", "1", "é", "É", "ǅ"],
